@@ -123,6 +123,10 @@ func runTransformCase(c *trCase, dir string, variant int) (string, string) {
 func runTransformReplay(args []string) int {
 	in, out := args[0], args[1]
 	rep := newReport("transform")
+	if m := bigWrapCase(); m != "" {
+		rep.violate("transform/wrap-large", fmt.Sprintf("CARv1 of %d sections: %s", bigSections, m), map[string]any{"family": "big-archive", "sections": bigSections})
+	}
+	rep.eval("big-archive-wrap", true)
 	jobs := make(chan []byte, 256)
 	var wg sync.WaitGroup
 	base := "/dev/shm"
